@@ -298,6 +298,16 @@ fn run(ctx: &mut Ctx) {
             Err(p) => ctx.panic_violation("bank name parser", &p, json!({"name": st})),
         }
     });
+    ctx.cases("utf8-4byte", 1, |ctx, _i, _rng| {
+        for st in super::c01::four_byte_utf8_strings() {
+            ctx.eval();
+            match guard(|| (got(&st), specific_ok(&st, &got(&st)))) {
+                Ok((None, true)) => ctx.count("4-byte-class strings with multi-byte characters rejected"),
+                Ok((g, ok)) => ctx.violation("non-ASCII name accepted or specific parser disagrees", format!("{:?}: {:?} {}", st, g, ok), json!({"name": st})),
+                Err(p) => ctx.panic_violation("bank name parser", &p, json!({"name": st, "bytes": hex(st.as_bytes())})),
+            }
+        }
+    });
     // ---- run numbers
     let thorough = !ctx.quick();
     let mut runs: Vec<u32> = (0..=20000u32).collect();
